@@ -209,7 +209,7 @@ def run(ctx, replay):
     ex = exhaustive(L)
     ctx.notes["exhaustive_length"] = L
     ctx.notes["exhaustive_histories"] = len(ex)
-    nrand, rlen = (150, 300) if ctx.tier == "quick" else (1500, 600)
+    nrand, rlen = (500, 300) if ctx.tier == "quick" else (1500, 600)
     rnd = [random_history(ctx.rng, rlen) for _ in range(nrand)]
     rnd_p = [random_history(ctx.rng, rlen, pauses=True) for _ in range(nrand // 2)]
     corpus = load_corpus()
